@@ -314,8 +314,35 @@ func c06unescapeSet(c *an.Ctx) {
 	}
 	info := src.Pkg.TypesInfo
 	have := map[byte]bool{}
-	// (a) byte constants compared in the function
+	// (a) byte constants compared in the function and in the unexported one-level helpers it calls
+	bodies := []ast.Node{src.Decl.Body}
 	ast.Inspect(src.Decl.Body, func(m ast.Node) bool {
+		if ce, ok := m.(*ast.CallExpr); ok {
+			if fn := an.Callee(info, ce); fn != nil && !fn.Exported() {
+				if hs := c.P.Src(fn); hs != nil && hs.Pkg == src.Pkg && hs.Decl.Body != nil {
+					bodies = append(bodies, hs.Decl.Body)
+				}
+			}
+		}
+		return true
+	})
+	for _, body := range bodies {
+		ast.Inspect(body, func(m ast.Node) bool {
+			be, ok := m.(*ast.BinaryExpr)
+			if !ok || (be.Op.String() != "==" && be.Op.String() != "!=") {
+				return true
+			}
+			for _, e := range []ast.Expr{be.X, be.Y} {
+				if tv, ok := info.Types[e]; ok && tv.Value != nil && tv.Value.Kind() == constant.Int {
+					if v, exact := constant.Int64Val(tv.Value); exact && v > 0 && v < 128 {
+						have[byte(v)] = true
+					}
+				}
+			}
+			return true
+		})
+	}
+	ast.Inspect(&ast.BlockStmt{}, func(m ast.Node) bool {
 		be, ok := m.(*ast.BinaryExpr)
 		if !ok || (be.Op.String() != "==" && be.Op.String() != "!=") {
 			return true
